@@ -23,6 +23,7 @@ fn main() {
         "worker" => worker(&args[2..]),
         "replay" => replay(&args[2]),
         "c19call" => props::c19::call_main(&args[2]),
+        "c19loom" => props::c19::loom_main(&args[2], args.get(3).map(|s| s.as_str()).unwrap_or("2")),
         "list" => {
             for p in props::all() {
                 println!("{}", p.id);
